@@ -45,7 +45,7 @@ Lemma lock_table_ghost_good tr (g : gst) :
 Proof. apply repo_ghost_good. Qed.
 
 (* non-vacuity of the hypothesis "run": the machine under the regenerated table
-   admits a concurrent schedule with two overlapping readers and a writer, and
+   allows a concurrent schedule with two overlapping readers and a writer, and
    it ends with every thread returned *)
 Definition sched_example : list (tid * action arg op) :=
   [ (0, ACall FindAllFiles argb); (1, ACall FindBatch argb); (2, ACall StoreBatch argb);
